@@ -210,7 +210,7 @@ def step (st : St) (j : Json) : St × List String :=
       | _ => none
     let line := match resolveFields cfg (reOf st.re) st.pd [] cm with
       | .ok vals => "fields ok " ++ showAssoc (vals.map fun (k, v) => (k, match v with | some x => renderJ x | none => "null"))
-      | .err e => "fields err:" ++ e
+      | .err _ => "fields err"
       | .panic s => "fields panic:" ++ s
     (st, [line])
   | o => (st, ["bad-op:" ++ o])
